@@ -84,6 +84,42 @@ def gt_digest(manager: Any) -> List[Any]:
     return out
 
 
+def judge_frame_tracking(ctx: Ctx, fr: Any, prev: Any) -> None:
+    """A frame's tracking score is the score of the two-frame history (results of the frame evaluated immediately before on
+    this manager - none for the first -, results of this frame): whatever lies between the two evaluations (time gap,
+    queries, other calls). Reference = the library's own CLEAR on that history (CLEAR itself is judged under C05)."""
+    from perception_eval.evaluation.metrics.tracking.clear import CLEAR
+
+    ts_list = list(getattr(fr.metrics_score, "tracking_scores", []) or [])
+    if not ts_list:
+        return
+    labels = {c.target_labels[0] for ts in ts_list for c in ts.clears}
+
+    def divide(results):
+        out: Dict[Any, List[Any]] = {l: [] for l in labels}
+        for r in results:
+            lab = r.estimated_object.semantic_label.label
+            if lab not in out:
+                if r.ground_truth_object is None:
+                    continue
+                lab = r.ground_truth_object.semantic_label.label
+                if lab not in out:
+                    continue
+            out[lab].append(r)
+        return out
+
+    cur, prv = divide(fr.object_results), divide(prev.object_results) if prev is not None else {l: [] for l in labels}
+    for ts in ts_list:
+        for c in ts.clears:
+            lab = c.target_labels[0]
+            ref = CLEAR([list(prv[lab]), list(cur[lab])], c.num_ground_truth, list(c.target_labels), c.matching_mode, list(c.matching_threshold_list))
+            ctx.count("C13.frame_tracking_scores_checked")
+            if prev is not None and prv[lab]:
+                ctx.count("C13.frame_tracking_scores_with_previous_results")
+            same = close(c.tp, ref.tp, 1e-9, 0) and close(c.fp, ref.fp, 1e-9, 0) and c.id_switch == ref.id_switch and close(c.tp_matching_score, ref.tp_matching_score, 1e-9, 1e-9)
+            ctx.check(same, "C13/frame_tracking_score_not_that_of_the_frame_and_its_immediate_predecessor", dict(frame=fr.frame_name, previous=None if prev is None else prev.frame_name, label=str(lab), mode=str(c.matching_mode), got=[c.tp, c.fp, c.id_switch, c.tp_matching_score], expected=[ref.tp, ref.fp, ref.id_switch, ref.tp_matching_score], gap_us=None if prev is None else int(fr.unix_time) - int(prev.unix_time)), "add_frame_result")
+
+
 def install(taps: Taps, ctx: Ctx) -> None:
     def add_factory(orig):
         def add_frame_result(self, unix_time, ground_truth_now_frame, estimated_objects, *a, **k):
@@ -96,6 +132,8 @@ def install(taps: Taps, ctx: Ctx) -> None:
             ctx.check(gt_snapshot(self) == before_gt, "C13/loaded_dataset_modified_by_evaluation", dict(frame=getattr(ground_truth_now_frame, "frame_name", None), before=[len(x[1]) for x in before_gt], after=[len(f.objects) for f in self.ground_truth_frames]), "add_frame_result")
             ctx.check([id(o) for o in estimated_objects] == before_est and [O.describe(o) for o in estimated_objects] == before_states, "C13/caller_estimate_list_modified", dict(n=len(before_est)), "add_frame_result")
             ctx.check(len(self.frame_results) == n_before + 1 and self.frame_results[-1] is out, "C13/frame_result_not_appended_once", dict(n_before=n_before, n_after=len(self.frame_results)), "add_frame_result")
+            prev = self.frame_results[n_before - 1] if n_before > 0 and len(self.frame_results) == n_before + 1 else None
+            guarded(ctx, "add_frame_result", lambda: judge_frame_tracking(ctx, out, prev))
             return out
 
         return add_frame_result
@@ -184,6 +222,19 @@ def run(ctx: Ctx) -> None:
     install_audit()
     with Taps(ctx) as taps:
         install(taps, ctx)
+        # ---- sparsely annotated recordings (key frames seconds apart) with a tracker that changes ids: every frame's tracking
+        # score is judged by the add_frame_result tap against the frame and the one evaluated immediately before it
+        for idx in ctx.indices("sparse_tracking", 10 if ctx.quick else 1200):
+            r = ctx.rng("sparse_tracking", idx)
+            scn = gen_scenario(r, task="tracking", n_frames=r.randint(2, 4), dt_us=r.choice([1_200_000, 2_500_000, 5_000_000, 400_000]), det=dict(p_switch=0.4, p_det=0.95, pos_sig=0.2), fp_share=0.0)
+            ctx.begin_case("sparse_tracking", idx, **scn.info)
+            with ctx.case_guard("sparse_tracking"):
+                with D.DatasetDir(scn.scene_spec()) as ds:
+                    run_ = Run(scn, ["base_link", "map"][idx % 2], ds)
+                    run_.run_all()
+                    run_.manager.get_scene_result()
+                ctx.count("C13.sparse_tracking_runs")
+                ctx.case(("sparse_tracking", len(scn.frames)), nontrivial=True)
         for idx in ctx.indices("histories", 40 if ctx.quick else 7000):
             r = ctx.rng("histories", idx)
             task = r.choice(["detection", "detection", "tracking", "fp_validation"])
